@@ -70,6 +70,10 @@ impl vstd::std_specs::cmp::PartialOrdSpecImpl for Duration {
 pub open spec fn sat_sub(a: u64, b: u64) -> u64 { if a >= b { (a - b) as u64 } else { 0 } }
 impl Duration {
     pub fn is_zero(&self) -> (r: bool) ensures r == (self.d == 0), { self.d == 0 }
+    /// std Duration::as_secs / as_millis: whole units, truncating. The model's `d` is the duration in NANOSECONDS (std holds u64 seconds + u32
+    /// nanoseconds; durations beyond u64 nanoseconds, about 584 years, are outside the model)
+    pub fn as_secs(&self) -> (r: u64) ensures r == self.d / 1_000_000_000, { self.d / 1_000_000_000 }
+    pub fn as_millis(&self) -> (r: u128) ensures r == self.d / 1_000_000, { (self.d / 1_000_000) as u128 }
 }
 impl Instant {
     /// std: `duration_since` saturates to zero when `earlier` is later (since Rust 1.60)
